@@ -1,6 +1,7 @@
 (* C03 - the proved fragment of the type universe, typing of values, and "the cursor points at a sub-object". *)
 From Coq Require Import List NArith ZArith Bool Lia.
 From SV.Enc Require Import Prims Ty Val IR Compile.
+From SV.Enc Require Import TyLemmas.
 Import ListNotations.
 Local Open Scope N_scope.
 
@@ -12,45 +13,64 @@ Definition scalar_kind (k : kind) : bool :=
   | _ => false
   end.
 
-Inductive frag : ty -> Prop :=
-| F_prim : forall k, scalar_kind k = true -> frag (TPrim k)
-| F_ptr : forall el, frag el -> frag (TPtr el)
-| F_slice : forall el, frag el -> frag (TSlice el)
-| F_arr : forall n el, frag el -> frag (TArray n el).
+(* a resolved field of the fragment: no options, a direct offset to a physical field of that type *)
+Definition field_ok (ph : list (N * ty)) (f : field) : Prop :=
+  exists o, f_path f = [(o, false)] /\ f_opts f = 0 /\ In (o, f_type f) ph.
 
-Fixpoint fsize (t : ty) : nat :=
-  match t with
-  | TArray _ el | TSlice el | TPtr el => S (fsize el)
-  | TMap k el => S (fsize k + fsize el)
-  | _ => 1%nat
-  end.
+Section FragDef.
+  Variable e : env.
 
-Lemma ty_eqb_fsize : forall a b, frag a -> ty_eqb a b = true -> fsize a = fsize b.
+  (* physical fields in increasing, non-overlapping order, none of size 0 *)
+  Fixpoint layout_ok (lo : N) (ph : list (N * ty)) (size : N) : Prop :=
+    match ph with
+    | [] => lo <= size
+    | (o, t) :: r => lo <= o /\ 0 < sizeof e t /\ layout_ok (o + sizeof e t) r size
+    end.
+
+  Fixpoint frag (t : ty) : Prop :=
+    match t with
+    | TPrim k => scalar_kind k = true
+    | TPtr el | TSlice el | TArray _ el => frag el
+    | TStruct size ph fs =>
+        (fix all (l : list (N * ty)) : Prop := match l with [] => True | (_, t) :: r => frag t /\ all r end) ph /\
+        layout_ok 0 ph size /\ Forall (field_ok ph) fs
+    | _ => False
+    end.
+
+  Definition frag_all (ph : list (N * ty)) : Prop :=
+    (fix all (l : list (N * ty)) : Prop := match l with [] => True | (_, t) :: r => frag t /\ all r end) ph.
+
+  Lemma frag_struct : forall size ph fs, frag (TStruct size ph fs) <-> frag_all ph /\ layout_ok 0 ph size /\ Forall (field_ok ph) fs.
+  Proof. intros. reflexivity. Qed.
+
+  Lemma frag_all_in : forall ph o t, frag_all ph -> In (o, t) ph -> frag t.
+  Proof.
+    induction ph as [|[o' t'] r IH]; intros o t H Hin; [destruct Hin|].
+    cbn in H. destruct H as [Ht Hr]. destruct Hin as [Hin|Hin]; [inversion Hin; subst; exact Ht|]. eapply IH; eassumption.
+  Qed.
+End FragDef.
+
+Definition tab_above (tab : list ty) (t : ty) : Prop := forall a, In a tab -> (tsize t < tsize a)%nat.
+
+Lemma mem_ty_false : forall t tab, tab_above tab t -> mem_ty t tab = false.
 Proof.
-  intros a b Ha. revert b. induction Ha as [k Hk|el Hel IH|el Hel IH|n el Hel IH]; intros b H; destruct b; cbn [ty_eqb] in H; try discriminate H; cbn [fsize].
-  - reflexivity.
-  - f_equal. apply IH. exact H.
-  - f_equal. apply IH. exact H.
-  - apply andb_true_iff in H. destruct H as [_ H]. f_equal. apply IH. exact H.
-Qed.
-
-Definition tab_above (tab : list ty) (t : ty) : Prop := forall a, In a tab -> (fsize t < fsize a)%nat.
-
-Lemma mem_ty_false : forall t tab, frag t -> tab_above tab t -> mem_ty t tab = false.
-Proof.
-  intros t tab Hf Ht. unfold mem_ty. apply not_true_is_false. intro H.
+  intros t tab Ht. unfold mem_ty. apply not_true_is_false. intro H.
   apply existsb_exists in H. destruct H as [a [Ha He]].
-  pose proof (ty_eqb_fsize _ _ Hf He). specialize (Ht a Ha). lia.
+  pose proof (ty_eqb_tsize _ _ He). specialize (Ht a Ha). lia.
 Qed.
 
 (* fragment types have no methods, are not json.Number, whatever the environment *)
-Lemma frag_no_marshaler : forall e t pc pv, frag t -> tryCompileMarshaler e pc t pv = None.
+Lemma frag_implements : forall e e' t m, frag e' t -> implements e t m = false /\ implements e (TPtr t) m = false.
 Proof.
-  intros e t pc pv H. unfold tryCompileMarshaler.
-  assert (Hi : forall m, implements e t m = false).
-  { intro m. destruct H as [k Hk|el Hel|el Hel|n el Hel]; try reflexivity. cbn. destruct Hel; reflexivity. }
-  assert (Hp : forall m, implements e (TPtr t) m = false) by (intro m; destruct H; reflexivity).
-  rewrite !Hi, !Hp. destruct pv; reflexivity.
+  intros e e' t m H. destruct t as [k|n el|el|kt el|el|ik|sz ph fs|id]; cbn in H; try contradiction; split; try reflexivity.
+  destruct el; cbn in H; try contradiction; reflexivity.
+Qed.
+
+Lemma frag_no_marshaler : forall e e' t pc pv, frag e' t -> tryCompileMarshaler e pc t pv = None.
+Proof.
+  intros e e' t pc pv H. unfold tryCompileMarshaler.
+  destruct (frag_implements e e' t MJson H) as [H1 H2]. destruct (frag_implements e e' t MText H) as [H3 H4].
+  rewrite H1, H2, H3, H4. destruct pv; reflexivity.
 Qed.
 
 (* ---- typing *)
@@ -73,7 +93,10 @@ Section Typing.
   | HT_ptr : forall el x, has_type el x -> has_type (TPtr el) (VPtr (Some x))
   | HT_slice_nil : forall el, has_type (TSlice el) (VSlice None)
   | HT_slice : forall el l, (forall x, In x l -> has_type el x) -> has_type (TSlice el) (VSlice (Some l))
-  | HT_arr : forall n el l, length l = n -> (forall x, In x l -> has_type el x) -> has_type (TArray n el) (VArr l).
+  | HT_arr : forall n el l, length l = n -> (forall x, In x l -> has_type el x) -> has_type (TArray n el) (VArr l)
+  | HT_struct : forall size ph fs vs, length vs = length ph ->
+      (forall k o t x, nth_error ph k = Some (o, t) -> nth_error vs k = Some x -> has_type t x) ->
+      has_type (TStruct size ph fs) (VStruct vs).
 End Typing.
 
 (* ---- the cursor points at a sub-object of type t and value v of some block *)
@@ -143,5 +166,93 @@ Section Loc.
     rewrite <- N.add_assoc. rewrite H.
     - apply view_arr_elem; [reflexivity|exact Hn|exact Hr].
     - cbn [sizeof]. nia.
+  Qed.
+
+  (* ---- fields of a struct *)
+  Definition sgo (want : ty -> bool) (off : N) : list (N * ty) -> list val -> option (ty * val) :=
+    fix go (ph : list (N * ty)) (vs : list val) {struct vs} : option (ty * val) :=
+      match ph, vs with
+      | (o, ft) :: ph', fv :: vs' =>
+          if (o <=? off) && (off <? o + sizeof e ft) then view e want ft fv (off - o)
+          else if (o =? off) && (sizeof e ft =? 0)
+               then match view e want ft fv 0 with Some x => Some x | None => go ph' vs' end
+               else go ph' vs'
+      | _, _ => None
+      end.
+
+  Lemma view_struct : forall want size ph fs vs off,
+    view e want (TStruct size ph fs) (VStruct vs) off =
+    if want (TStruct size ph fs) && (off =? 0) then Some (TStruct size ph fs, VStruct vs) else sgo want off ph vs.
+  Proof. reflexivity. Qed.
+
+  Lemma layout_lo : forall ph lo size k o t, layout_ok e lo ph size -> nth_error ph k = Some (o, t) -> lo <= o.
+  Proof.
+    induction ph as [|[o0 t0] r IH]; intros lo size k o t H Hn; [destruct k; discriminate Hn|].
+    cbn in H. destruct H as (H1 & H2 & H3). destruct k as [|k]; [injection Hn as <- <-; exact H1|].
+    cbn in Hn. specialize (IH _ _ _ _ _ H3 Hn). lia.
+  Qed.
+
+  Lemma layout_pos : forall ph lo size k o t, layout_ok e lo ph size -> nth_error ph k = Some (o, t) -> 0 < sizeof e t.
+  Proof.
+    induction ph as [|[o0 t0] r IH]; intros lo size k o t H Hn; [destruct k; discriminate Hn|].
+    cbn in H. destruct H as (H1 & H2 & H3). destruct k as [|k]; [injection Hn as <- <-; exact H2|].
+    cbn in Hn. eapply IH; eassumption.
+  Qed.
+
+  Lemma sgo_hit : forall want ph vs lo size k o t x r,
+    layout_ok e lo ph size -> nth_error ph k = Some (o, t) -> nth_error vs k = Some x -> r < sizeof e t ->
+    sgo want (o + r) ph vs = view e want t x r.
+  Proof.
+    intros want. induction ph as [|[o0 t0] ph IH]; intros vs lo size k o t x r Hl Hp Hv Hr; [destruct k; discriminate Hp|].
+    destruct vs as [|v0 vs]; [destruct k; discriminate Hv|].
+    cbn in Hl. destruct Hl as (H1 & H2 & H3).
+    destruct k as [|k].
+    - injection Hp as <- <-. injection Hv as <-. cbn [sgo].
+      assert ((o0 <=? o0 + r) && (o0 + r <? o0 + sizeof e t0) = true) as ->.
+      { apply andb_true_iff. split; [apply N.leb_le; lia|apply N.ltb_lt; lia]. }
+      f_equal. lia.
+    - cbn in Hp, Hv. pose proof (layout_lo _ _ _ _ _ _ H3 Hp) as Hlo.
+      cbn [sgo].
+      assert ((o0 <=? o + r) && (o + r <? o0 + sizeof e t0) = false) as ->.
+      { apply andb_false_iff. right. apply N.ltb_ge. lia. }
+      assert ((o0 =? o + r) && (sizeof e t0 =? 0) = false) as ->.
+      { apply andb_false_iff. left. apply N.eqb_neq. lia. }
+      eapply IH; eassumption.
+  Qed.
+
+  Lemma leafw_struct : forall size ph fs, leafw (TStruct size ph fs) = false. Proof. reflexivity. Qed.
+
+  Lemma loc_field : forall p size ph fs vs k o t x,
+    loc p (TStruct size ph fs) (VStruct vs) -> layout_ok e 0 ph size ->
+    nth_error ph k = Some (o, t) -> nth_error vs k = Some x -> loc (padd p o) t x.
+  Proof.
+    intros p size ph fs vs k o t x (bt & bv & off & -> & H) Hl Hp Hv.
+    exists bt, bv, (off + o). split; [reflexivity|].
+    intros r Hr. rewrite <- N.add_assoc. rewrite H.
+    - rewrite view_struct, leafw_struct. cbn [andb]. eapply sgo_hit; eassumption.
+    - cbn [sizeof].
+      (* o + r < size: the field lies inside the struct *)
+      assert (Hin : forall ph lo, layout_ok e lo ph size -> nth_error ph k = Some (o, t) -> o + sizeof e t <= size).
+      { clear. intros ph. revert k. induction ph as [|[o0 t0] ph IH]; intros k lo Hl Hn; [destruct k; discriminate Hn|].
+        cbn in Hl. destruct Hl as (H1 & H2 & H3). destruct k as [|k].
+        - injection Hn as <- <-. clear IH. revert H3. generalize (o0 + sizeof e t0). clear.
+          induction ph as [|[o1 t1] ph IH]; intros lo H; cbn in H; [exact H|]. destruct H as (Ha & Hb & Hc). specialize (IH _ Hc). lia.
+        - eapply IH; eassumption. }
+      specialize (Hin ph 0 Hl Hp). lia.
+  Qed.
+
+  (* the typed read of the reference encoder finds the field *)
+  Lemma typed_field : forall size ph fs vs k o t x,
+    layout_ok e 0 ph size -> nth_error ph k = Some (o, t) -> nth_error vs k = Some x ->
+    typed e t (PAt (TStruct size ph fs) (VStruct vs) o) = Some x.
+  Proof.
+    intros size ph fs vs k o t x Hl Hp Hv. unfold typed. rewrite view_struct.
+    assert (ty_eqb t (TStruct size ph fs) = false) as ->.
+    { apply not_true_is_false. intro He. pose proof (ty_eqb_tsize _ _ He) as Hs. rewrite tsize_struct in Hs.
+      pose proof (phys_size_in ph o t (nth_error_In _ _ Hp)). lia. }
+    cbn [andb].
+    pose proof (layout_pos _ _ _ _ _ _ Hl Hp) as H0.
+    rewrite <- (N.add_0_r o). rewrite (sgo_hit _ _ _ _ _ _ _ _ _ 0 Hl Hp Hv H0).
+    destruct x; cbn [view]; rewrite ty_eqb_refl; reflexivity.
   Qed.
 End Loc.
